@@ -216,6 +216,8 @@ def run(ctx):
     server_name_rules(ctx, w)
     length_rules(ctx, w)
     split_agreement(ctx, w, "C10.split-agreement")
+    # room version ids: each known variant <-> exactly its canonical literal (stored byte-for-byte otherwise)
+    T.version_rules(ctx, w, [], rule="C10.room-version")
     if ctx.tier == "thorough":
         from .. import witness
         witness.check(ctx, "C10.witness", {"C10FromBorrowed": "UserId::from_borrowed is callable from another crate: identifiers can be created without validation", "C10FromBox": "RoomAliasId::from_box is callable from another crate: identifiers can be created without validation"})
